@@ -45,6 +45,13 @@ MISSED = [
  ("C08-f (fold hash from builtin `hash()` of the key tuple)", "spectrum keys were numeric in the determinism tables", "a string-valued key member (file name) in the API groups"),
  ("C09-f (cleanup by an unescaped glob on the prefix)", "prefixes and file roots were plain words", "prefixes / file roots with `[ ] * ?`; files the run created *or rewrote* count as its intermediates"),
  ("C11-f (vectorised anchor search treats tied scores rank by rank)", "tie-free model outputs", "a third of the C11 tables have coarse features (exactly tied model outputs), some unshuffled"),
+ ("C04-g (`<=` in the chunk merge: later chunk wins exact ties)", "no label-sorted files with tied scores across chunks", "`decoys_first_ties` class (the mirrored layout is the known finding **F3**, class `sorted_ties`, found on the unchanged tree while confirming this change)"),
+ ("C06-g (PEPs re-aligned with a float32 key for integer scores)", "float scores only", "`bigint` score form: int64 fixed-point scores around 1e9"),
+ ("C07-g (`_update_labels` no longer casts to float64: integer features ranked in float32)", "features were floats of order 1", "a quarter of the C07 tables carry the informative feature as 10**12 + milli-units (int64)"),
+ ("C12-g (labels from float32-cast scores)", "start features of order 1", "every fourth C12 table starts from a feature 1e9 + milli-units"),
+ ("C13-g (later CSV chunks cast to the first chunk's inferred dtypes)", "floats always written with a decimal point", "half of the delimited files written with `%.17g` (2 instead of 2.0)"),
+ ("C15-g (fast path when no protein group repeats)", "every table had several peptides per group", "sparse tables: one peptide per occurring group"),
+ ("C20-g (scan numbers stored as int32)", "scan numbers were small", "documents with scans in the upper half of the unsigned 32-bit range"),
  ("C12-d (new scoring block size, last row unscored when n % size == 1)", "the constant did not exist when the monitors were written; tables are far smaller than its default", "tunables are discovered in `mokapot.constants` at run time; C05 adds a variant per discovered constant, C12 a metamorphic refit under small values of it"),
 ]
 seed_rows = ["| seeded change | needs | result |", "|---|---|---|"]
